@@ -80,3 +80,156 @@ def sensitivity_cli(text, goals, param, subs=None, nmax=4):
                     rows.append({"raw": l[:300], "unparsed": str(ex)[:100]})
         out[method] = {"rows": rows}
     return out
+
+
+def sens_chain(text, goal, param, subs=None, nvals=12):
+    """Per-instance for-all-n chain of the sensitivity-recurrence method (theorems Polar.Sens.sens_pruned_sound /
+    sens_unique): (1) every delta-row of DiffRecBuilder's system is the formal parameter derivative of the moment row
+    (product rule) up to pruned terms; (2) every pruned term is justified: a pruned c'·M has c' = 0 identically, a pruned
+    c·δM belongs to the closed set of monomials whose rows and initial values do not depend on the parameter;
+    (3) the initial values of delta rows are the derivatives of the moment rows' initial values; returns the augmented
+    matrix / initial vector at the parameter point and the solver's closed form for the window validator."""
+    from .solve import term_shape, _as_qd, _radicands, _rat
+    from .analyze import _max_case
+    from .convert import mono_json
+    from .normalize import _coef_value
+    _reset_settings()
+    subs = subs or {}
+    res = {"accepted": False, "problems": []}
+    try:
+        from inputparser import Parser
+        from program import normalize_program
+        program = normalize_program(Parser().parse_string(text))
+        from symengine.lib.symengine_wrapper import sympify
+        from recurrences import DiffRecBuilder
+        from recurrences.solver import RecurrenceSolver
+        from utils import get_monoms, unpack_piecewise
+        import sympy
+        p = sympify(param)
+        if p not in program.symbols:
+            res["error"] = {"stage": "param", "etype": "NotASymbol", "message": param}
+            return res
+        drb = DiffRecBuilder(program, p)
+        rb = drb.rec_builder
+        delta = drb.delta
+        m = sympify(mono_expr(goal))
+        recs = drb.get_recurrences(m)
+    except Exception as e:  # noqa
+        res["error"] = _err(e, "diff_recurrences")
+        _reset_settings()
+        return res
+    res["accepted"] = True
+    P = sympy.Symbol(param)
+    D_ = sympy.Symbol(str(delta))
+    syms = program.symbols
+
+    def split(expr):
+        acc = {}
+        for c, mj in get_monoms(sympify(expr).expand(), constant_symbols=syms, with_constant=True):
+            mj = sympy.sympify(mj)
+            acc[mj] = acc.get(mj, sympy.Integer(0)) + sympy.sympify(c)
+        return [(c, mj) for mj, c in acc.items()]
+
+    def is_zero(e):
+        e = sympy.sympify(e)
+        return e == 0 or sympy.simplify(e) == 0
+
+    try:
+        pruned = set()
+        n_delta_rows = 0
+        for mon in recs.monomials:
+            if str(delta) not in {str(z) for z in mon.free_symbols}:
+                # a plain moment row must be the RecBuilder's own row
+                if not is_zero(sympy.sympify(recs.recurrence_dict[mon]) - sympy.sympify(rb.get_recurrence(sympify(mon)))):
+                    res["problems"].append(f"moment row of {mon} differs from RecBuilder's")
+                continue
+            n_delta_rows += 1
+            M = sympify(sympy.sympify(mon).subs(D_, 1))
+            full = sympy.Integer(0)
+            for c, mj in split(rb.get_recurrence(M)):
+                full += sympy.diff(c, P) * mj
+                if mj != 1:
+                    full += c * mj * D_
+            emitted = sympy.sympify(recs.recurrence_dict[mon])
+            diff_rows = sympy.expand(full - emitted)
+            if diff_rows != 0:
+                for c, mj in split(diff_rows):
+                    if is_zero(c):
+                        continue
+                    if D_ in mj.free_symbols:
+                        base = mj.subs(D_, 1)
+                        # the emitted row lacks c·δ(base): allowed only when δ(base) ≡ 0; anything else is a wrong coefficient
+                        want_c = sum((cc for cc, mm in split(rb.get_recurrence(M)) if mm == base), sympy.Integer(0))
+                        if is_zero(c - want_c):
+                            pruned.add(base)
+                        else:
+                            res["problems"].append(f"row δ({M}): coefficient of δ({base}) is off by {c - want_c}"[:300])
+                    else:
+                        res["problems"].append(f"row δ({M}): term ({c})*{mj} of the product rule is missing or wrong"[:300])
+            init_emitted = sympy.sympify(recs.init_values_dict[mon])
+            init_full = sympy.diff(sympy.sympify(rb.get_initial_value(M)), P)
+            if not is_zero(init_emitted - init_full):
+                res["problems"].append(f"initial value of δ({M}) is {init_emitted}, derivative of the moment's initial value is {init_full}"[:300])
+        # closure of the pruned set: rows and initial values free of the parameter
+        work, seen = list(pruned), set()
+        while work:
+            M = work.pop()
+            if M in seen:
+                continue
+            seen.add(M)
+            if len(seen) > 400:
+                res["problems"].append("closure of parameter-independent monomials exceeds 400")
+                break
+            if not is_zero(sympy.diff(sympy.sympify(rb.get_initial_value(sympify(M))), P)):
+                res["problems"].append(f"δ({M}) was dropped but the initial value of {M} depends on {param}"[:300])
+            for c, mj in split(rb.get_recurrence(sympify(M))):
+                if not is_zero(sympy.diff(c, P)):
+                    res["problems"].append(f"δ({M}) was dropped but its recurrence has the coefficient {c} of {mj}"[:300])
+                if mj != 1:
+                    work.append(mj)
+        res["delta_rows"] = n_delta_rows
+        res["pruned"] = sorted(str(x) for x in seen)
+        # the augmented linear system at the parameter point and the solver's closed form of δ·goal
+        A = recs.recurrence_matrix
+        mons = [str(x) for x in recs.monomials]
+        res["monomials"] = mons
+        res["matrix"] = [[_coef_value(A[i, j], subs) for j in range(A.shape[1])] for i in range(A.shape[0])]
+        res["init_vector"] = [_coef_value(x, subs) for x in recs.init_values_vector]
+        target = m * delta
+        solver = RecurrenceSolver(recs)
+        sol = solver.get(sympy.sympify(target))
+        cl = {"exact": bool(solver.is_exact), "max_case": _max_case(sol), "index": mons.index(str(sympy.sympify(target))),
+              "values": [eval_closed_form(sol, n, subs) for n in range(nvals + 1)], "str": str(sol)[:600]}
+        gen = unpack_piecewise(sol)
+        gen = gen.xreplace({s: _rat(subs[s.name]) for s in gen.free_symbols if s.name in subs})
+        try:
+            shape = term_shape(gen)
+            bases = {}
+            for c_, dg, b_ in shape:
+                bases[str(b_)] = max(bases.get(str(b_), 0), dg + 1)
+            cl["degs"] = sorted(bases.values())
+            rads = set()
+            for c_, _, b_ in shape:
+                rads |= _radicands(c_) | _radicands(b_)
+            if all(c_.is_Rational and b_.is_Rational for c_, _, b_ in shape):
+                cl["terms"] = [{"coef": f"{c_.p}/{c_.q}", "deg": dg, "base": f"{b_.p}/{b_.q}"} for c_, dg, b_ in shape]
+            elif len(rads) == 1:
+                Dr = next(iter(rads))
+                ts = []
+                for c_, dg, b_ in shape:
+                    cq, bq = _as_qd(c_, Dr), _as_qd(b_, Dr)
+                    if cq is None or bq is None:
+                        ts = None
+                        break
+                    ts.append({"coef": list(cq), "deg": dg, "base": list(bq)})
+                if ts is not None:
+                    cl["terms_qd"] = ts
+                    cl["D"] = str(Dr)
+        except Exception as ex:  # noqa
+            cl["shape_error"] = str(ex)[:200]
+        res["closed"] = cl
+    except Exception as e:  # noqa
+        res["chain_error"] = _err(e, "sens_chain")
+    finally:
+        _reset_settings()
+    return res
